@@ -1473,3 +1473,23 @@ pub fn gen_soup(rng: &mut Rng) -> Vec<u8> {
     }
     encode_prog(&v)
 }
+
+
+/// A program in which the two extreme jump displacements are both TAKEN: `ja +32767` at pc 1 and
+/// `ja -32768` near pc 32771 (then a second pass and exit). Result: 2.
+pub fn gen_extreme_jumps() -> Case {
+    let a = 32769usize;
+    let mut v: Vec<Insn> = Vec::with_capacity(a + 4);
+    v.push(Insn::new(MOV64_IMM, 0, 0, 0, 0));
+    v.push(Insn::new(JA, 0, 0, 32767, 0)); // -> pc 32769
+    while v.len() < a {
+        v.push(Insn::new(MOV64_IMM, 6, 0, 0, 1));
+    }
+    v.push(Insn::new(ADD64_IMM, 0, 0, 0, 1)); // pc a
+    v.push(Insn::new(JEQ_IMM, 0, 0, 1, 2)); // second pass: skip the back jump
+    v.push(Insn::new(JA, 0, 0, -32768, 0)); // pc a+2 -> pc 4
+    v.push(Insn::new(EXIT, 0, 0, 0, 0));
+    let mut c = Case::new(Kind::NoData, encode_prog(&v), "long/extreme-jumps");
+    c.class = "long/extreme-jumps".into();
+    c
+}
